@@ -352,7 +352,9 @@ size_t varintAdaptiveEncodeWith(uint8_t *dst, const uint64_t *values,
     }
 
     case VARINT_ADAPTIVE_FOR: {
-        varintFORMeta forMeta;
+        /* Zeroed so varintFOREncode() never mistakes stack residue for
+         * metadata that "already matches" this input (count != 0) */
+        varintFORMeta forMeta = {0};
         encodedSize = varintFOREncode(dst + offset, values, count, &forMeta);
 
         if (meta) {
